@@ -68,6 +68,9 @@ class Prop(BaseProp):
         # wide flights: as many callers on one key as the u16 waiter statistic of Call can count, one fewer and one more
         # (oracle only: the model has no such counter, and its theorems hold for any number of callers)
         wide = [{"id": "wide%d" % n, "text": "W %d k0 | Q | F 0 v | Y 3" % n, "meta": {"model_may_be_silent": True}} for n in ([65536, 65537, 65535] if not big else [65536, 65537, 65535, 131072, 65538])]
+        # back-to-back calls of a key's only caller while other keys keep the group's map contended (8 workers): a call made after
+        # the owner of a finished flight has returned starts a new flight
+        wide += [{"id": "b2b%d" % i, "text": "B %d %d %d" % t, "meta": {"model_may_be_silent": True}} for i, t in enumerate([(4, 8, 3000), (8, 8, 2000)] if not big else [(4, 8, 20000), (8, 8, 20000), (2, 16, 20000), (8, 0, 5000)])]
         return [{"name": "sf", "cases": cases, "prep": "sf", "prep_impl": True, "timeout": 900, "panic_ok": False},
                 {"name": "sf", "cases": wide, "model": False, "timeout": 900, "panic_ok": False}]
 
